@@ -2,6 +2,7 @@ import Driver.Proto
 import AdaptaVerif.Model.Bends
 import AdaptaVerif.Check.Hanan
 import AdaptaVerif.Check.OrthGraph
+import AdaptaVerif.Model.AStar
 /-!
 Driver mode `c05`.
 
@@ -342,10 +343,153 @@ def checkSceneVG (c : Case) : CaseResult := Id.run do
     else
       return { verdict := .diverge s!"route cheaper than the optimum of the dumped graph: {ratToString cost} < {ratToString opt} (route uses an edge that was not dumped?)", stats := stats }
 
+/-! ### the A* search itself: `Model.AStar` run on the dumped graph vs the C++ route -/
+
+open AdaptaVerif.Model.AStar in
+def parseAdjE (ts : Array String) : Array (List Edge) := Id.run do
+  let mut out : Array (List Edge) := #[]
+  let mut i := 0
+  while i < ts.size do
+    let deg := nat! ts[i]!
+    let es : List Edge := (List.range deg).map fun j =>
+      { to := nat! (ts[i + 1 + 3 * j]?.getD "0"), dist := (num? (ts[i + 2 + 3 * j]?.getD "0")).getD 0,
+        dummy := (ts[i + 3 + 3 * j]?.getD "0") == "1" }
+    out := out.push es
+    i := i + 1 + 3 * deg
+  return out
+
+def ptsStr (l : List Pt) : String :=
+  " ".intercalate (l.map fun p => s!"({ratToString p.x},{ratToString p.y})")
+
+/-- largest graph (vertices) on which the list-based model search is run -/
+def astarCap : Nat := 400
+
+open AdaptaVerif.Model.AStar in
+/-- `none`: model search and C++ route agree (or no dump / graph too large); `some msg`: they differ.
+    Compared: the as-coded cost (`search`'s g: hop lengths + bend penalties, last hop from a cost target
+    free) of the C++ `route()` against the g of the node the model search returns, exactly; and the
+    vertex sequence itself (the model reproduces time stamps and edge order, so ties are broken alike;
+    only several edges in the same direction at one vertex — bypass edges around other connectors' end
+    points — make the C++ order history dependent, there a different path of equal cost is accepted). -/
+def checkAStar (c : Case) (pen : Rat) (route : List (Rat × Rat)) : Option String × List (String × Nat) := Id.run do
+  if (c.get1 "agskip").isSome then return (none, [("astar.skipped-large", 1)])
+  let some xs := (c.get1 "agx").bind nums? | return (none, [("astar.nodump", 1)])
+  let some ys := (c.get1 "agy").bind nums? | return (some "A*: no agy", [])
+  let some fl := c.get1 "agf" | return (some "A*: no agf", [])
+  let some cl := c.get1 "agc" | return (some "A*: no agc", [])
+  let some al := c.get1 "aga" | return (some "A*: no aga", [])
+  let some st := c.get1 "ags" | return (some "A*: no ags", [])
+  if xs.size > astarCap then return (none, [("astar.skipped-large", 1)])
+  let pts : Array Pt := (Array.range xs.size).map fun i => ⟨xs[i]!, ys.getD i 0⟩
+  let g : Graph :=
+    { pts := pts, adj := parseAdjE al, vflags := fl.map nat!, connPt := cl.map (· == "1"),
+      src := nat! st[0]!, tar := nat! st[1]!, segPen := pen }
+  if !g.assertsOk then return (some "A*: segmentPenalty ≤ 0", [])
+  let rpts : List Pt := route.map fun p => ⟨p.1, p.2⟩
+  match g.run with
+  | .outOfFuel => return (some "A* model ran out of fuel", [])
+  | .noPath =>
+    if rpts.length ≤ 2 then return (none, [("astar.nopath-both", 1)])
+    else return (some s!"A* model finds no path, C++ route has {rpts.length} points", [])
+  | .found b done =>
+    let chain := pathOf done done.length b                       -- node chain, target first
+    let mroute := (routeOfChain chain.length chain).reverse       -- what pathNext yields, source first
+    let mpts := mroute.map g.pt
+    let looped := mroute.length ≠ chain.length
+    let implCost := routeCostPts g none rpts
+    let modelCost := routeCostPts g none mpts
+    let chainCost := routeCostPts g none (chain.reverse.map g.pt)
+    let run0 := ({ g with eps := 0 }).run
+    let epsFree := match run0 with | .found b0 d0 => b0 == b && d0.length == done.length | _ => false
+    let isCT := fun (v : Nat) => (costTargets g).any fun ct => ct.1 = v
+    -- consistency of the estimator on this graph (hypotheses of Props.C05AStar.graph_search_optimal),
+    -- evaluated on every 4th case
+    let consStats : List (String × Nat) :=
+      if c.idx % 8 != 0 || xs.size > 250 then [] else
+        let fi := g.firstInconsistent
+        let kind := match fi with
+          | none => "none"
+          | some (pv, v, w) =>
+            if w = g.tar then "edge-into-target"
+            else if isCT w then "edge-into-cost-target"
+            else match pv with
+              | some p => if bendClass (g.pt p) (g.pt v) (g.pt w) = 2 then "doubling-back" else "other"
+              | none => "edge-from-start"
+        let cons := fi.isNone && g.consistent
+        [(s!"astar.first-inconsistency.{kind}", 1),
+         (if cons then "astar.estimator-consistent" else "astar.estimator-inconsistent", 1),
+         (if g.firstInconsistentOther.isNone then "astar.estimator-consistent-off-known-kinds" else "astar.inconsistency-of-unknown-kind", 1)]
+    let stats : List (String × Nat) :=
+      [("astar.run", 1), ("astar.explored", done.length),
+       (if epsFree then "astar.eps-irrelevant" else "astar.eps-matters", 1),
+       (if looped then "astar.chain-has-loop" else "astar.chain-simple", 1)] ++ consStats
+    if chainCost ≠ b.g then
+      return (some s!"A* model self-check: g {ratToString b.g} ≠ cost of its own node chain {ratToString chainCost}", stats)
+    if rpts = mpts then return (none, ("astar.path-equal", 1) :: stats)
+    if implCost ≠ modelCost then
+      return (some s!"A* search: as-coded cost of the C++ route {ratToString implCost} ≠ that of the model's route {ratToString modelCost} (search g {ratToString b.g}); C++ {ptsStr rpts}; model {ptsStr mpts}", stats)
+    -- equal cost, different vertices: only acceptable where the C++ edge order is history dependent
+    -- (several orthogVisList entries of one vertex in the same direction)
+    let sameDir := g.adj.zipIdx.any fun (l, u) =>
+      l.any fun e => l.any fun e' => e.to ≠ e'.to &&
+        AdaptaVerif.Model.Bends.orthogonalDirection (g.pt u) (g.pt e.to) ==
+          AdaptaVerif.Model.Bends.orthogonalDirection (g.pt u) (g.pt e'.to)
+    if sameDir then return (none, ("astar.path-differs-equal-cost-parallel-edges", 1) :: stats)
+    return (some s!"A* search: C++ route and model route differ at equal as-coded cost {ratToString implCost} although no vertex has two edges in one direction (tie broken differently); C++ {ptsStr rpts}; model {ptsStr mpts}", stats)
+
+/-- adds the A* comparison to a scene verdict: a model/implementation difference is reported unless the
+    scene already failed for an unknown reason -/
+def withAStar (c : Case) (r : CaseResult) : CaseResult :=
+  let pen := ((c.get1 "pen").bind (fun l => num? l[0]!)).getD 0
+  match (c.get1 "route").bind pts? with
+  | none => r
+  | some route =>
+    let (d, st) := checkAStar c pen route
+    let r' := { r with stats := r.stats ++ st }
+    match d, r.verdict with
+    | some msg, .ok => { r' with verdict := .diverge msg }
+    | some msg, .specfail m =>
+      -- known-finding kinds (restricted end points) must not mask a model/implementation difference
+      if m.startsWith "suboptimal route" || m.startsWith "route violates direction restriction" then
+        { r' with verdict := .diverge msg } else r'
+    | _, _ => r'
+
+open AdaptaVerif.Model.AStar in
+def checkAStarKernels (c : Case) : CaseResult := Id.run do
+  let mut calls := 0
+  let mut hist : List (String × Nat) := []
+  for l in c.get "ck" do
+    if l.size < 15 then return { verdict := .diverge s!"cost() line without result (abort?): {l}" }
+    match nums? (l.extract 1 15) with
+    | none => return { verdict := .diverge "unparsable ck line" }
+    | some v =>
+      calls := calls + 1
+      let g : Graph := { pts := #[], adj := #[], vflags := #[], connPt := #[], src := 0, tar := 0,
+                         segPen := v[7]!, revPen := v[8]!, connSrc := ⟨v[9]!, v[10]!⟩, connDst := ⟨v[11]!, v[12]!⟩ }
+      let p1 : Option Pt := if l[0]! == "1" then some ⟨v[0]!, v[1]!⟩ else none
+      let m := costPts g v[6]! p1 ⟨v[2]!, v[3]!⟩ ⟨v[4]!, v[5]!⟩
+      let cls := match p1 with | some q => bendClass q ⟨v[2]!, v[3]!⟩ ⟨v[4]!, v[5]!⟩ | none => 9
+      hist := bumpStats hist s!"cost.bendClass.{cls}" 1
+      if m != v[13]! then
+        return { verdict := .diverge s!"cost(): impl {ratToString v[13]!} model {ratToString m} on {l}" }
+  for l in c.get "cmp" do
+    match num? l[0]!, num? l[2]! with
+    | some af, some bf =>
+      calls := calls + 1
+      let a : Node := { v := 0, pv := none, prev := none, g := af, h := 0, ts := nat! l[1]! }
+      let b : Node := { v := 0, pv := none, prev := none, g := bf, h := 0, ts := nat! l[3]! }
+      let m := worse epsDouble a b
+      hist := bumpStats hist s!"cmp.{m}" 1
+      if m != (l[4]! == "1") then
+        return { verdict := .diverge s!"ANodeCmp: impl {l[4]!} model {m} on {l}" }
+    | _, _ => return { verdict := .diverge "unparsable cmp line" }
+  return { verdict := .ok, nontrivial := calls > 0, stats := ("kernel.calls", calls) :: hist }
+
 def run (_args : List String) : IO UInt32 :=
   runCases (fun c =>
-    if c.tag.startsWith "scene-dirs" then checkSceneVG c
-    else if c.tag.startsWith "scene" then checkScene c
+    if c.tag.startsWith "scene-dirs" then withAStar c (checkSceneVG c)
+    else if c.tag.startsWith "scene" then withAStar c (checkScene c)
+    else if c.tag == "astar-kernels" then checkAStarKernels c
     else checkKernels c)
 
 end Driver.C05
